@@ -1322,7 +1322,7 @@ class Container:
             a[1] = numpy.array([d_x, d_y])
         elif quantity_unit == 'L':
             a[1] = numpy.array([1 / 1000., 1 / 1000.])
-        elif quantity_value == 'mol':
+        elif quantity_unit == 'mol':
             a[1] = numpy.array([d_x / mw_x, d_y / mw_y])
 
         b[1] = quantity_value
